@@ -152,7 +152,7 @@ def iter_value(fnode, lp):
     return d.value, d
 
 
-def through_locals(node, defs, keep=()):
+def through_locals(node, defs, keep=(), fresh_ok=False):
     """a copy of node in which every local with exactly ONE definition by an effect-free expression is replaced by that expression
     (repeatedly): the shape a statement has when its hoisted sub-expressions are written out. The canonical model only inlines a
     temporary where that is provably behaviour-preserving; a rule that asks WHICH value reaches a place uses this reading instead."""
@@ -167,9 +167,10 @@ def through_locals(node, defs, keep=()):
             if isinstance(n.ctx, ast.Load) and n.id not in keep and self.depth < 6:
                 dv = defs.get(n.id, [])
                 fresh = (ast.List, ast.Dict, ast.Set, ast.ListComp, ast.DictComp, ast.SetComp, ast.GeneratorExp)   # identity matters
-                if len(dv) == 1 and isinstance(dv[0][1], ast.AST) and effect_free(dv[0][1]) and not isinstance(dv[0][1], fresh) and \
-                        not (isinstance(dv[0][1], ast.Call) and isinstance(dv[0][1].func, ast.Name) and
-                             dv[0][1].func.id in ('list', 'dict', 'set', 'deepcopy', 'copy', 'zeros', 'ones', 'array')) and \
+                if len(dv) == 1 and isinstance(dv[0][1], ast.AST) and effect_free(dv[0][1]) and \
+                        (fresh_ok or not isinstance(dv[0][1], fresh)) and \
+                        (fresh_ok or not (isinstance(dv[0][1], ast.Call) and isinstance(dv[0][1].func, ast.Name) and
+                                          dv[0][1].func.id in ('list', 'dict', 'set', 'deepcopy', 'copy', 'zeros', 'ones', 'array'))) and \
                         not any(isinstance(x, ast.Name) and x.id == n.id for x in ast.walk(dv[0][1])):
                     self.depth += 1
                     r = self.visit(_clone(dv[0][1]))
